@@ -211,3 +211,21 @@ package dig
 //@   loop#1 invariant resInv(ig.resultCache) && (*ig.resultCache).ncols == old((*ig.resultCache).ncols) && 0 <= i && i < (*ig.resultCache).n
 //@   loop#2 invariant rangeindex + 2 <= len(ig.coldefs) ==> refOK(ig.coldefs[rangeindex + 1])
 //@   loop#2 invariant len(row) == len(ig.coldefs) && frs.kind == ig.filterAGG && (rangeindex == -1 ==> !frs.set)
+
+// C16/C11: Selected returns the inputs of the (nested) declaration that name a
+// column. Proved here: every returned input names a column, the result is a
+// fresh slice and nothing that existed before the call is written (so callers
+// keep what they know about the declaration). That it returns ALL of them, in
+// declaration order, is decided by the bounded stand-in harness/sel (a
+// recursive specification over the input tree would need a frame lemma for
+// heap-reading recursive specs that the generator does not have).
+//@ func (Input).Selected props=C16,C11 writes=fresh
+//@   ensures [fresh] cap(result) == 0 || !old(alloc(result))
+//@   ensures [elems-selected] forall k int :: 0 <= k && k < len(result) ==> len(result[k].Column) > 0
+//@   loop#0 invariant cap(res) == 0 || !old(alloc(res))
+//@   loop#0 invariant forall k int :: 0 <= k && k < len(res) ==> len(res[k].Column) > 0
+//@ func (Event).Selected props=C16,C11 writes=fresh
+//@   ensures [fresh] cap(result) == 0 || !old(alloc(result))
+//@   ensures [elems-selected] forall k int :: 0 <= k && k < len(result) ==> len(result[k].Column) > 0
+//@   loop#0 invariant cap(res) == 0 || !old(alloc(res))
+//@   loop#0 invariant forall k int :: 0 <= k && k < len(res) ==> len(res[k].Column) > 0
